@@ -229,7 +229,7 @@ let gen_history ?(cfgstr : string option) (idx : int) (prof : profile) (oc : out
       else
         pickw [ (14, `Register); (16, `ClientPublish); (12, `Subscribe); (5, `Unsubscribe); (prof.p_broker_pub, `BrokerPublish);
                 (14, `ClientAck); (12, `BrokerStuff); (4, `Pingreq); (4, `Pubrel); (prof.p_sleep, `Sleep); (3, `Disconnect0);
-                (3, `Connect); (6, `Adv); (4, `TimerEdge); (4, `Cross); (16, `Progress); (6, `Flow2); (2, `Auth); (1, `WillTopic); (1, `WillMsg); (3, `Terminal);
+                (3, `Connect); (6, `Adv); (4, `TimerEdge); (4, `Cross); (3, `CrossReg); (16, `Progress); (6, `Flow2); (2, `Auth); (1, `WillTopic); (1, `WillMsg); (3, `Terminal);
                 (prof.p_malformed, `Malformed); (1, `OtherKind) ] in
     match choice with
     | `Connect -> emit_or_skip (ev_sn (connect_pkt ()))
@@ -292,6 +292,12 @@ let gen_history ?(cfgstr : string option) (idx : int) (prof : profile) (oc : out
                 arrives while this one still waits for the REGACK of its REGISTER step *)
              | TxBrokerPub (mid, q, AwaitRegack, RsSn (Register (tid, _, _)), _, _) when stale && int_of_n q > 0 ->
                Some (ev_sn (if int_of_n q = 1 then Puback (tid, mid, nn (pick [0; 1; 2; 3])) else Pubrec mid))
+             (* ... or the late REGACK of an earlier REGISTER step with the same message ID (QoS 0 exchanges share one):
+                it names ANOTHER topic ID than the REGISTER that is waiting *)
+             | TxBrokerPub (_, _, AwaitRegack, RsSn (Register (tid, m, _)), _, _) when stale || rnd 6 = 0 ->
+               (match List.filter (fun (i, _) -> i <> tid) (nmap_to_list !s.gw_registered) with
+                | [] -> Some (ev_sn (Regack (tid, m, nn 0)))
+                | l -> Some (ev_sn (Regack (fst (pick l), m, nn 0))))
              | TxBrokerPub (mid, q, (AwaitPuback | AwaitPubrec), _, Some (Publish (_, _, _, _, tid, _, _)), _) when stale && int_of_n q > 0 ->
                Some (ev_sn (Regack (tid, mid, nn 0)))
              | TxBrokerPub (mid, _, st, data, snpub, _) ->
@@ -344,6 +350,28 @@ let gen_history ?(cfgstr : string option) (idx : int) (prof : profile) (oc : out
             | _ -> emit_or_skip (ev_mq (MqPuback (nn cm))));
          if rnd 4 = 0 then adv_safe (1 + rnd 30);
          if alive () then emit_or_skip (ev_sn (if q = 1 then Puback (nn tid, nn tid, nn 0) else Pubrec (nn tid))))
+    | `CrossReg ->
+      (* C06 / C02: a client QoS 1 PUBLISH (or SUBSCRIBE) in flight without the broker's answer; a broker PUBLISH with the
+         SAME message ID on a topic without ID starts its REGISTER step; the client's exchange times out (or is
+         answered late) during that step; then the client's REGACK: the broker exchange must still be there *)
+      let cm = fresh_mid () in
+      let alive () = !s.gw_ending = None && not !s.gw_ended && !s.gw_st = Active in
+      let t0 = int_of_n !s.gw_now in
+      emit_or_skip (ev_sn (if rnd 3 = 0 then Subscribe (false, nn 1, nn 2, nn cm, encode_short (bs (pick shorts)), [])
+                           else Publish (false, nn 1, false, nn 2, encode_short (bs (pick shorts)), nn cm, payload ())));
+      adv_safe (1 + rnd (max 1 (rdelay - 60)));
+      let topic = "new/" ^ string_of_int (100 + rnd 400) in
+      if alive () then emit_or_skip (ev_mq (MqPublish (false, nn (1 + rnd 2), coin (), bs topic, nn cm, payload ())));
+      (match rnd 3 with
+       | 0 -> ()                                                               (* REGACK while the client's exchange is pending *)
+       | 1 -> adv_safe (max 1 (t0 + rdelay + 2 - int_of_n !s.gw_now))            (* ... after it timed out *)
+       | _ -> if alive () then emit_or_skip (ev_mq (MqPuback (nn cm))));        (* ... after the broker answered it *)
+      if alive () then
+        (match List.filter_map (fun (_, t) -> match t with
+             | TxBrokerPub (mid, _, AwaitRegack, RsSn (Register (tid, m, _)), _, _) when int_of_n mid = cm -> Some (tid, m)
+             | _ -> None) (nmap_to_list !s.gw_objs) with
+         | (tid, m) :: _ -> emit_or_skip (ev_sn (Regack (tid, m, nn 0)))
+         | [] -> emit_or_skip (ev_sn (Regack (nn (int_of_n !s.gw_seq_next - 1), nn cm, nn 0))))
     | `Adv -> adv_safe (pickw [ (3, 1 + rnd 90); (3, rdelay - 1); (3, rdelay + 1); (2, 2 * rdelay + 3); (1, 5003) ])
     | `BigAdv -> adv_safe (1000 * (1 + rnd 12) + 1 + rnd 7)
     | `TimerEdge ->
